@@ -9,6 +9,12 @@ From CG Require Import Model.Check.
 From CG Require Import Model.Dfa.
 From CG Require Import Spec.Choice.
 From CGgen Require Import Consts.
+From CG Require Import Spec.Rx.
+From CG Require Import Spec.Meaning.
+From CG Require Import Spec.KnownC01.
+From CG Require Import Spec.TokAut.
+From CG Require Import Spec.Domain.
+From CG Require Import Spec.Ambig.
 From CG Require Import Model.Tpl.
 From CG Require Import Model.Quote.
 From CG Require Import Spec.ShellDQ.
@@ -46,6 +52,18 @@ Separate Extraction
   Dfa.mkall
   Dfa.trans_states
   Choice.spec
+  Meaning.complete
+  Meaning.ambiguous_run
+  Meaning.matched
+  Meaning.run
+  Meaning.step
+  Meaning.start
+  Meaning.moves
+  KnownC01.piece_boundary
+  KnownC01.last_word_escape
+  Domain.C01_domain
+  Domain.C01_env_ok
+  Ambig.find
   Quote.make_string_constant
   ShellDQ.read
   ShellDQ.read_list
